@@ -58,9 +58,19 @@ def main():
             tag = {1: "caught", 0: "quiet", 2: "harness error"}.get(v["exit"], str(v["exit"]))
             det = v["detail"].split(":")[0] if v.get("detail") else ""
             checks.append(f"{k}: {tag}" + (f" (`{det}`)" if det and v["exit"] == 1 else ""))
-        summ = " ".join(str(m.get("summary", "")).split())[:260]
-        need = " ".join(str(m.get("needs_to_manifest", "")).split())[:220]
+        summ = " ".join(str(m.get("summary", "")).split())[:170].replace("|", "/")
+        need = " ".join(str(m.get("needs_to_manifest", "")).split())[:150].replace("|", "/")
         lines.append(f"| `{os.path.basename(d)}` | {m.get('property')} | {summ} | {need} | {'; '.join(checks)} |")
+    # regression of the whole record at other seeds (tools/recheck_seeds.py)
+    for fn in sorted(glob.glob(os.path.join(VERIF, "seeded", "RECHECK_seed*.json"))):
+        if fn.endswith("_partial.json"):
+            continue
+        r = json.load(open(fn))
+        tot = sum(len(v.get("checks", {})) for v in r.values())
+        caught = sum(1 for v in r.values() for c in v.get("checks", {}).values() if c.get("exit") == 1)
+        missed = [f"{k}/{p}" for k, v in sorted(r.items()) for p, c in v.get("checks", {}).items() if c.get("exit") != 1]
+        lines.append(f"\n`{os.path.basename(fn)}`: every stored change re-run against the current checks "
+                     f"({len(r)} changes, {tot} check runs): {caught} caught" + (f"; not caught: {', '.join(missed)}" if missed else "") + ".")
     body = "\n".join(lines) + "\n"
     p = os.path.join(VERIF, "DESIGN.md")
     s = open(p).read()
